@@ -164,6 +164,21 @@ CLAIMED = {
  },
 }
 CLAIMED.update({
+ 'C04': {
+  'text': 'Partial. Verus proves on the real closure of build_decision_evaluator (model-evaluator/src/builders/decision.rs, lifted: rule R4), for every model evaluator, every list of requirement references of any length and '
+          'every input context: the decision logic is evaluated over exactly ONE context - every required input data element bound to the name and type-checked value the input data evaluator takes from the supplied input, '
+          'every required knowledge model and decision service to its function, every required decision\'s variable to that decision\'s own value over the same input, an input entry named like one of the latter replacing it '
+          '(DMN TCK 0085), and nothing else (so input entries outside the requirement closure do not reach the logic); the value is coerced to the output variable\'s type and bound to the output variable\'s name in the '
+          'caller\'s result context, which is otherwise unchanged; and on the real bodies of FeelContext::set_entry / zip / overwrite that they bind / merge (other wins) / replace-without-adding. '
+          'The registries are opaque objects that meet the contract the closures are proved to meet (induction along the acyclic graph, assumed). '
+          'BOUNDED requirement-graphs-differential runs generated graphs (diamonds, knowledge model chains, services as functions, boxed contexts and invocations) end to end against a reference evaluation.',
+  'design_ref': 'DESIGN.md section 5 (C04)',
+  'note': 'Trusted: Verus/Z3, vstd BTreeMap / iterator specs, A-name; A-graph (registry evaluate methods meet the closure contracts), R8g (RwLock guards dropped, lock poisoning not modelled), A-eval (the logic\'s value is a function '
+          'of the entries of the context it runs over), A-ctx (Default / clone / into Scope / coerced as named stubs). Not decided: the builder part outside the closure (which references are collected, which logic is built), '
+          'knowledge model and decision service closures, boxed expression evaluators beyond their scope discipline (unit purity), evaluate_invocable dispatch, name clashes between requirements.',
+  'technique': 'contract-based deductive verification: Verus requires/ensures/loop invariants on the decision evaluator closure lifted mechanically from /repo and on FeelContext::set_entry / zip / overwrite; '
+               'bounded differential stand-in (labelled bounded) for whole requirement graphs',
+ },
  'C07': {
   'text': 'Partial. Verus proves on the real body of scientific_to_plain (feel-number/src/number.rs), for EVERY text the decimal library can write for a finite decimal128 value '
           '(to-scientific-string form: any sign, 1..34 coefficient digits, any exponent -6176..6111): the result is plain decimal text - optional minus sign, digits, optionally a point and digits, '
@@ -181,7 +196,6 @@ CLAIMED.update({
  },
 })
 NOT_APPLICABLE = {
- 'C04': 'the property is about dyn Fn closures stored in RwLock<HashMap> registries calling one another along the requirement graph; no first-order function carries it, Verus has no support for dyn Fn fields / std RwLock guards, Kani cannot bound the graph (DESIGN.md section 6)',
 
  'C20': 'a schedule property: Kani has no thread support and Verus would need the code rewritten onto its own permission/atomic types; Send+Sync is checked by rustc, not by this family (DESIGN.md section 6)',
 }
